@@ -284,13 +284,22 @@ P("C17", "proof", "tables regenerated from the source + Lean 4 theorems (decide 
             "TP.C17.comp_valid_iff", "TP.C17.path_valid_iff", "TP.C17.invalid_verdict_sound", "TP.C17.valid_agrees_checked", "TP.C17.invalid_verdict_complete"],
   rule="all 256 byte values x 3 positions x several prefixes + small domains + multi-byte characters with forbidden low bytes; non-trivial = invalid or >= 2 components", design_ref="§5 C17")
 
-P("C18", "other", "catch_unwind + watchdog exploration; Lean totality of the model",
-  "Every model function is a total Lean function (accepted by the termination checker, no `partial`, no fuel that runs out); "
-  "the implementation is exercised under catch_unwind on bounded-exhaustive and very long inputs.",
-  "Partial: stack depth, allocation failure and time are explored, not proved. " + TV_NOTE,
+P("C18", "other", "Lean 4 theorems (byte-level fault-capable transcription of the parser combinators and both parsers never faults, for every input and step sequence) + model/code correspondence (cmix) + catch_unwind / time-limit exploration for the rest",
+  "Proved in Lean for every byte string and every sequence of next / next_back calls: the byte-level transcription of "
+  "src/common/non_utf8/parser.rs and of the Unix and Windows component and prefix parsers (Model/Comb: one definition per "
+  "Rust function, every slice index, `input[0]`, usize subtraction and unwrap checked, every while loop fuelled by the "
+  "input length) never yields a panic or a divergence and returns exactly what the token-level parser returns "
+  "(unix_parser_total, windows_parser_total, *_comb_interleave). The transcription is tied to the crate by the cmix "
+  "correspondence on every run. Every other model function is a total Lean function; the implementation is exercised "
+  "under catch_unwind on bounded-exhaustive and very long inputs.",
+  "Partial: operations outside the parsers (push, push_checked, hash, set_extension, normalize, conversions) have no "
+  "fault-capable transcription yet: decided by exploration. Stack depth, allocation failure and time are explored, not proved. " + TV_NOTE,
+  theorems=["TP.C18.unix_parser_total", "TP.C18.windows_parser_total", "TP.C18.unix_comb_interleave", "TP.C18.windows_comb_interleave",
+            "TP.C18.runC_sim"],
   rule="14+ long-input shapes (16-64 KiB) x 6 arguments x ~45 operations, plus every short input; distinct by (shape, argument)",
-  explanation="Totality of the model is a Lean fact (every definition is accepted by the termination checker); that the Rust code "
-              "neither panics nor loops is explored under catch_unwind with a per-transcript time limit on long inputs of every shape.",
+  explanation="Parser totality is a Lean theorem about a byte-level transcription with checked indices and fuelled loops, tied to the "
+              "code by correspondence; that the rest of the Rust code neither panics nor loops is explored under catch_unwind with "
+              "a per-transcript time limit on long inputs of every shape.",
   design_ref="§5 C18")
 
 P("C19", "translation_validation", "conversion chains vs std (implementation vs oracle)",
